@@ -198,7 +198,8 @@ Fixpoint repeat_list {A} (l : list A) (n : nat) : list A :=
   match n with O => [] | S k => l ++ repeat_list l k end.
 Definition rep_limit : Z := 1000.
 Definition repeat_seq {A} (mk : list A -> value) (l : list A) (n : Z) : result :=
-  if Z.leb n 0 then Val (mk [])
+  if Z.ltb n (- 2 ^ 63) then Exc EUnmodelled          (* OverflowError: does not fit an index *)
+  else if Z.leb n 0 then Val (mk [])
   else if Z.ltb rep_limit n then Exc EUnmodelled
   else Val (mk (repeat_list l (Z.to_nat n))).
 
